@@ -241,17 +241,21 @@ void FsDropInService::processDropInAdd(const std::string& file) {
   } catch (const std::exception& e) {
     OLOG << "Caught: " << e.what();
     OLOG << "Failed to inject drop in config into engine";
+    // whatever this file injected earlier no longer reflects its content
+    scheduleDropInRemove(file);
     return;
   }
   if (!dropin_root) {
     OLOG << "Could not parse drop in config=" << file;
     OLOG << "Failed to inject drop in config into engine";
+    scheduleDropInRemove(file);
     return;
   }
 
   if (!scheduleDropInAdd(file, *dropin_root)) {
     OLOG << "Could not compile drop in config";
     OLOG << "Failed to inject drop in config into engine";
+    scheduleDropInRemove(file);
   }
 }
 
